@@ -170,7 +170,13 @@ func ShareTables(ss *ShareSpec, cfg CfgSpec) ([][]byte, error) {
 		if i > 0 {
 			n = n/3 + 1
 		}
-		b, _, _, err := BuildTable(ss.TableSeed+uint64(i)*977, cfg, n, ss.NLogs/(i+1), min)
+		// the newer tables also rewrite and delete reflog entries of the
+		// oldest one (same keys: the merged log view has to shadow them)
+		lb := uint64(0)
+		if i > 0 && ss.TableSeed&1 == 1 {
+			lb = 1
+		}
+		b, _, _, err := BuildTableShadowing(ss.TableSeed+uint64(i)*977, cfg, n, ss.NLogs/(i+1), min, lb)
 		if err != nil {
 			return nil, err
 		}
